@@ -5,6 +5,7 @@ and the pair shifted in time), recorded as limb numbers / float.hex strings.  La
 (spec/MC_Affinity.tla) and are run at three dyadic time units; random cases (arbitrary doubles) are described by
 integers only (a seed and two kinds) and rebuilt here deterministically.
 """
+import copy
 import math
 import random
 import warnings
@@ -114,10 +115,31 @@ def _shift_lat(g, d):
     return _map_lat(g, lambda t: t + d)
 
 
+def provenance(make, rec, prov, far=7):
+    """The geometry make(rec), obtained in one of four ways (the case says which; the value is the same):
+    0 constructed; 1 an equal-kind geometry elsewhere (shifted by `far`) is used in a geometry operation, then
+    model_copy(update=coordinates) derives this one; 2 the same by attribute assignment; 3 a deep copy of a used geometry."""
+    if prov == 0:
+        return make(rec)
+    if prov == 3:
+        g = make(rec)
+        compute_bounds(g)
+        return copy.deepcopy(g)
+    other = make(_shift_lat(rec, far))
+    compute_bounds(other)
+    coords = make(rec).coordinates
+    if prov == 1:
+        return other.model_copy(update={"coordinates": coords})
+    other.coordinates = coords
+    return other
+
+
 def _lattice(case):
     runs = []
     for tu in TIME_UNITS:
-        mk = lambda d, tu=tu: (build(_shift_lat(case["g1"], d), tu), build(_shift_lat(case["g2"], d), tu))
+        make = lambda r, tu=tu: build(r, tu)
+        mk = lambda d, make=make: (provenance(make, _shift_lat(case["g1"], d), case["prov"][0], 7),
+                                   provenance(make, _shift_lat(case["g2"], d), case["prov"][1], 11))
         runs.append(_session(mk, case["ds"], case["tb"] * tu, case["fb"] * FREQ_UNIT, tu))
     return {"runs": runs}
 
@@ -128,7 +150,9 @@ FAR_UNIT = 2.0 ** -10          # far sessions: ticks of 2^-10 s counted from an 
 def _far(case):
     origins = [0 if e == 0 else 2 ** e for e in case["bases"]]
     shift = {o: int(o / FAR_UNIT) for o in origins}
-    mk = lambda o: (build(_shift_lat(case["g1"], shift[o]), FAR_UNIT), build(_shift_lat(case["g2"], shift[o]), FAR_UNIT))
+    make = lambda r: build(r, FAR_UNIT)
+    mk = lambda o: (provenance(make, _shift_lat(case["g1"], shift[o]), case["prov"][0], 7),
+                    provenance(make, _shift_lat(case["g2"], shift[o]), case["prov"][1], 11))
     return {"runs": [_session(mk, origins, case["tb"] * FAR_UNIT, case["fb"] * FREQ_UNIT, FAR_UNIT,
                               origins=[float(o) for o in origins])]}
 
@@ -229,7 +253,9 @@ def _random(case):
         raise RuntimeError("no valid random geometry")
     d = rng.uniform(0.5, 4.0)
     offsets = [0.0, d]
-    mk = lambda off: (_mk(k1, _shift_coords(k1, c1, off) if off else c1), _mk(k2, _shift_coords(k2, c2, off) if off else c2))
+    make = lambda r: _mk(r["type"], r["coordinates"])
+    rec = lambda k, c, off: {"type": k, "coordinates": _shift_coords(k, c, off) if off else c}
+    mk = lambda off: (provenance(make, rec(k1, c1, off), case["prov"][0], 3.0), provenance(make, rec(k2, c2, off), case["prov"][1], 5.0))
     return {"runs": [_session(mk, offsets, tb, fb, 1.0)]}
 
 
@@ -261,7 +287,9 @@ def _random_far(case):
     else:
         raise RuntimeError("no valid random geometry")
     origins = [float(rng.randrange(2 ** 18, 2 ** 27)), 0.0, float(2 ** rng.randrange(18, 28))]
-    mk = lambda off: (_mk(k1, _shift_coords(k1, c1, off) if off else c1), _mk(k2, _shift_coords(k2, c2, off) if off else c2))
+    make = lambda r: _mk(r["type"], r["coordinates"])
+    rec = lambda k, c, off: {"type": k, "coordinates": _shift_coords(k, c, off) if off else c}
+    mk = lambda off: (provenance(make, rec(k1, c1, off), case["prov"][0], 3.0), provenance(make, rec(k2, c2, off), case["prov"][1], 5.0))
     return {"runs": [_session(mk, origins, tb, fb, FAR_UNIT, origins=origins)]}
 
 
@@ -285,13 +313,15 @@ def random_cases(rng, tier):
         if mode != "same" and rng.random() < 0.5:
             k1, k2 = k2, k1
         yield {"kind": "rnd", "seed": rng.randrange(1, 2**31 - 1), "k1": k1, "k2": k2, "mode": "axis-" + mode,
-               "tb": 1, "fb": 1, "ds": [0, 1]}
+               "tb": 1, "fb": 1, "ds": [0, 1],
+               "prov": [rng.choice([0, 0, 1, 2, 3]), rng.choice([0, 0, 1, 2, 3])]}
     for i in range(n):
         k1 = rng.choice(KINDS)
         mode = rng.choice(["same", "same", "near", "near", "near", "far"])
         k2 = k1 if mode == "same" else rng.choice(KINDS)
         yield {"kind": "rnd", "seed": rng.randrange(1, 2**31 - 1), "k1": k1, "k2": k2, "mode": mode,
-               "tb": 1, "fb": 1, "ds": [0, 1]}
+               "tb": 1, "fb": 1, "ds": [0, 1],
+               "prov": [rng.choice([0, 0, 1, 2, 3]), rng.choice([0, 0, 1, 2, 3])]}
 
 
 def nontrivial(o):
